@@ -17,7 +17,7 @@ Not decided: that the reported length equals the target's true distance (network
 import re
 
 from .common import *
-from ..tables import cdec, cwant, canon
+from ..tables import cdec, cwant, canon, holds
 from .state_common import *
 from ..callgraph import CallGraph
 from ..vra import Lin
@@ -227,9 +227,7 @@ def run(chk, tier):
         st_ = St()
         return f_, e5.run(f_, [e5.sym_ref(st_, 'self')] + ([e5.sym_ref(st_, 'hop')] if nargs == 2 else []), st_)
 
-    def tri(cd, atom):
-        k_, v_ = canon(atom, 1)
-        return None if cd.get(k_) not in (0, 1) else int(cd[k_] == v_)
+    tri = holds
     f_, outs_ = reader('hops', 1)
     good, why = bool(outs_), ''
     nonempty = 0
